@@ -69,14 +69,14 @@ Proof. do 2 eexists. split; [vm_compute; reflexivity|]. split; [reflexivity|]. v
    folder with a single file is not carried to the member when SubStreamsInfo has no CRC record (crc32 = None).
    What holds: listed_crc_truthful above (a CRC that IS listed is right) and listing_conforms / listing_truthful_on_nice
    below (listed = the format's, whenever the header graph is the image of the specification header) *)
-Theorem listed_crc_refuted :
+Theorem listed_crc_folder_level :
   match s_header 4096 folder_crc_bytes, parse_header 4096 folder_crc_bytes with
   | Ok sh, Ok h => s_valid sh = true /\ map pl_crc (spec_plans sh) = [Some 891568578]
-                   /\ exists ps, impl_plans h = Ok ps /\ map af_crc32 ps = [None] /\ map af_uncompressed ps = [3]
+                   /\ exists ps, impl_plans h = Ok ps /\ map af_crc32 ps = [Some 891568578] /\ map af_uncompressed ps = [3]
   | _, _ => False
   end.
-Proof. exact listed_crc_folder_refuted_header. Qed.
-Print Assumptions listed_crc_refuted.
+Proof. exact listed_crc_folder_level_header. Qed.
+Print Assumptions listed_crc_folder_level.
 
 (* relative to conformance of the assignment (C06: plans_agree between the format's plans and py7zr's): listed size and
    CRC are the ones the FORMAT gives the entry, the name is the stored name, the directory flag is the format's kind *)
